@@ -51,11 +51,11 @@ def grids(tier, seed):
         maxd = int(np.ceil(np.log2(n))) if n > 1 else 0
         for depth in [None] + list(range(0, maxd + 1)):
             for reps in (1, 2) if q else (1, 2, 3):
-                for s in range(2 if q else 5):
+                for s in range(2 if q else 15):
                     out.append(("RandomBinaryTree", dict(num_variables=n, depth=depth, num_repetitions=reps, seed=seed * 100 + s)))
     # repetitions with random splits: two repetitions may agree on an upper split and differ below
     for n in (4, 5, 6) if q else (4, 5, 6, 7, 8):
-        for s in range(10 if q else 40):
+        for s in range(10 if q else 120):
             out.append(("RandomBinaryTree", dict(num_variables=n, depth=None, num_repetitions=2, seed=1000 + seed * 100 + s)))
             out.append(("LinearTree", dict(num_variables=n, num_repetitions=2, randomize=True, seed=seed * 100 + s)))
     for n in range(1, 5 if q else 8):
@@ -92,7 +92,7 @@ def grids(tier, seed):
     for d in range(3, 6 if q else 8):
         for kind in ("independent", "chain", "chain-gaussian", "clusters"):
             for root in ([None, d - 1] if q else [None] + list(range(d))):
-                for rep in range(1 if q else 3):
+                for rep in range(1 if q else 8):
                     out.append(("ChowLiuTree", dict(d=d, kind=kind, root=root, dseed=seed + 31 * d + rep)))
     invalid = [
         ("RandomBinaryTree", dict(num_variables=0)), ("RandomBinaryTree", dict(num_variables=3, num_repetitions=0)),
